@@ -462,22 +462,22 @@ func main() {
 	wall := time.Since(start).Seconds()
 	if !*noEvidence {
 		cov := map[string]interface{}{
-			"evaluations":         total.Runs,
-			"distinct_nontrivial": len(digests) + overflow,
+			"evaluations":              total.Runs,
+			"distinct_nontrivial":      len(digests) + overflow,
 			"distinct_nontrivial_note": "exact up to 3,000,000 distinct cases per worker; cases explored beyond that bound are not added (counters.cases_beyond_distinctness_bound), so the figure is a lower bound in long runs",
-			"scenarios":           total.Scenarios,
-			"rule":                pc.rule,
-			"samples":             total.Samples,
-			"logical_steps_total": total.Steps,
-			"operations_executed": total.Ops,
-			"counters":            total.Counters,
-			"distinct_schedules":  len(scheds),
-			"runs_per_hour":       int(float64(total.Runs) / exploreWall * 3600),
-			"seeds_per_hour":      int(float64(total.Runs) / exploreWall * 3600),
-			"simulated_time":      "none: no code under test reads a clock; logical_steps_total (yields executed) is the time measure",
-			"seed_range":          fmt.Sprintf("VERIF_SEED=%d -> scenario seeds %d.. (one scenario per seed, %d workers)", seed, seed<<24, *nworkers),
-			"components":          map[string][]string{"real": real, "stub": stub},
-			"known_findings_seen": total.KnownSeen,
+			"scenarios":                total.Scenarios,
+			"rule":                     pc.rule,
+			"samples":                  total.Samples,
+			"logical_steps_total":      total.Steps,
+			"operations_executed":      total.Ops,
+			"counters":                 total.Counters,
+			"distinct_schedules":       len(scheds),
+			"runs_per_hour":            int(float64(total.Runs) / exploreWall * 3600),
+			"seeds_per_hour":           int(float64(total.Runs) / exploreWall * 3600),
+			"simulated_time":           "none: no code under test reads a clock; logical_steps_total (yields executed) is the time measure",
+			"seed_range":               fmt.Sprintf("VERIF_SEED=%d -> scenario seeds %d.. (one scenario per seed, %d workers)", seed, seed<<24, *nworkers),
+			"components":               map[string][]string{"real": real, "stub": stub},
+			"known_findings_seen":      total.KnownSeen,
 			"instrumentation": map[string]interface{}{
 				"yield_sites": len(info.Sites), "pool_get_sites": info.PoolGets, "pool_put_sites": info.PoolPuts,
 				"knobs": info.Knobs, "globals_monitored": info.Globals, "globals_unmonitored": info.Unmonitored, "notes": info.Notes,
